@@ -30,7 +30,7 @@ PROPERTY = {
 }
 
 
-def expand(ps):
+def expand(ps, zero_rows=True):
     """population spec -> ordinary spec of the explicit network (nodes '<pop>_u<i>')"""
     spec = {"ops": copy.deepcopy(ps["ops"]), "ntypes": {}, "nodes": [], "edges": [], "etypes": {}}
     sizes = {}
@@ -53,7 +53,7 @@ def expand(ps):
         for i in range(nt_):
             for j in range(ns):
                 w = W if not isinstance(W, list) else W[i][j]
-                if isinstance(W, list) and w == 0 and (any(W[i]) or j > 0):
+                if isinstance(W, list) and w == 0 and (any(W[i]) or j > 0 or not zero_rows):
                     # zero entries carry no edge - except that a target whose row is entirely zero still "receives
                     # sum_j W[i,j]*source_j" = 0 (not its declared default): keep one zero-weight edge for such a row
                     continue
@@ -117,7 +117,8 @@ def build_population_circuit(ps):
         W = c["W"]
         conns.append(Connectivity(source=c["s"], target=c["t"],
                                   weights=np.asarray(W, dtype=float) if isinstance(W, list) else float(W),
-                                  delays=c.get("d"), spread=c.get("sp"), **kw))
+                                  delays=c.get("d"), spread=(0.0 if c.get("sp0") and c.get("sp") is None else c.get("sp")),
+                                  **kw))
     return CircuitTemplate(name="popnet", populations=pops, connections=conns)
 
 
@@ -190,6 +191,8 @@ def pop_case(draw):
         dm = draw(st.integers(0, 5))
         if dm == 0:
             c["d"] = draw(st.sampled_from([0.03, 0.05, 0.023, 0.017, 0.017]))
+            # "no spread" may also be spelled spread=0 (the first point of a sweep over the spread)
+            c["sp0"] = draw(st.sampled_from([False, False, True]))
         elif dm == 1:
             if draw(st.booleans()):
                 c["d"] = draw(st.sampled_from([0.1, 0.2]))
@@ -237,7 +240,7 @@ class PopArm(Arm):
     min_per_shard = 20
     required_labels = ("matrix", "scalar_weight", "non_square", "heterogeneous_params", "coupling_edge", "delay",
                        "delay+spread", "two_populations", "second_translation:run", "second_translation:get_run_func",
-                       "second_translation:run_in_place", "dynamic_coupling_edge")
+                       "second_translation:run_in_place", "dynamic_coupling_edge", "delay_spread_zero")
 
     def strategy(self, ctx):
         return pop_case()
@@ -276,6 +279,8 @@ class PopArm(Arm):
                 lab.add("uniform_matrix")
             if c.get("d") is not None:
                 lab.add("delay+spread" if c.get("sp") is not None else "delay")
+                if c.get("sp0") and c.get("sp") is None:
+                    lab.add("delay_spread_zero")
         if len(ps["pops"]) >= 2:
             lab.add("two_populations")
         if any(isinstance(v, list) and not k.split("/")[1] in {s[0] for od in ps["ops"].values() for s in od["vars"] if s[1] == "state"}
@@ -359,4 +364,104 @@ class PopArm(Arm):
                 "conns": [{k: v for k, v in c.items()} for c in ps["conns"]], "cfg": case["cfg"]}
 
 
-ARMS = [PopArm()]
+class MatrixEdgesArm(Arm):
+    """the explicit network itself, built the way the property names it: one node per unit and
+    CircuitTemplate.add_edges_from_matrix(source_var, target_var, source_nodes, target_nodes, weight[, edge_attr]) per
+    connection (entry [j, i] of the matrix is the weight of the edge source_nodes[i] -> target_nodes[j]; entries with
+    |w| <= min_weight carry no edge), compared unit by unit with the reference interpreter"""
+    name = "matrix_edges"
+    budget = {"quick": 400, "thorough": 5000}
+    min_per_shard = 10
+    required_labels = ("non_square", "asymmetric_pattern", "vec", "novec", "delay")
+
+    def strategy(self, ctx):
+        @st.composite
+        def case(draw):
+            c = draw(pop_case())
+            for cn in c["pspec"]["conns"]:
+                cn["coupling"] = None
+                if cn.get("sp") is not None or draw(st.integers(0, 2)) > 0:
+                    cn["d"], cn["sp"] = None, None
+            c["cfg"]["vectorize"] = draw(st.booleans())
+            c["cfg"]["warmup"] = None
+            return c
+        from ..finding_predicates import repair_case
+
+        def rep(c):
+            # the listed findings are phrased over ordinary specs: repair the explicit network's view of the case
+            return c
+        return case()
+
+    def run(self, case, ctx):
+        from .. import isolate
+        from ..model import build_circuit
+        res = CaseResult()
+        ps, cfg = case["pspec"], case["cfg"]
+        vec = bool(cfg.get("vectorize"))
+        ex_spec = expand(ps, zero_rows=False)
+        ex = excluded_by("C16", {"spec": ex_spec, "cfg": dict(cfg, vectorize=vec)}, ctx)
+        if ex:
+            res.excluded = ex
+            return res
+        dt, steps = cfg["dt"], cfg["steps"]
+        lab = {"vec" if vec else "novec"}
+        nontriv = False
+        for c in ps["conns"]:
+            if isinstance(c["W"], list):
+                A = np.asarray(c["W"], dtype=float)
+                if A.shape[0] != A.shape[1]:
+                    lab.add("non_square")
+                elif A.shape[0] >= 2 and not np.array_equal(A != 0, (A != 0).T):
+                    lab.add("asymmetric_pattern")
+                if A.size >= 4 and len(set(A[A != 0].tolist())) >= 2:
+                    nontriv = True
+            if c.get("d") is not None:
+                lab.add("delay")
+        res.labels = sorted(lab)
+        res.nontrivial = nontriv
+        rm = RefModel(ex_spec)
+        ref_all = rm.simulate(steps, dt)[:steps]
+        if not np.all(np.isfinite(ref_all)) or np.max(np.abs(ref_all)) > 1e6:
+            res.rejected = "reference not benign"
+            return res
+        sizes = {p[0]: p[2] for p in ps["pops"]}
+        isolate.reset()
+        try:
+            circ = build_circuit(dict(ex_spec, edges=[]), name="net")
+            for c in ps["conns"]:
+                sp_, so, sv = c["s"].split("/")
+                tp_, to, tv = c["t"].split("/")
+                W = np.asarray(c["W"], dtype=float) if isinstance(c["W"], list) else \
+                    np.full((sizes[tp_], sizes[sp_]), float(c["W"]))
+                kw = {"edge_attr": {"delay": float(c["d"])}} if c.get("d") is not None else {}
+                circ.add_edges_from_matrix(source_var=f"{so}/{sv}", target_var=f"{to}/{tv}",
+                                           source_nodes=[f"{sp_}_u{j}" for j in range(sizes[sp_])],
+                                           target_nodes=[f"{tp_}_u{i}" for i in range(sizes[tp_])], weight=W, **kw)
+            outputs = {f"v{i}": p for i, p in enumerate(rm.state_paths)}
+            with warnings.catch_warnings():
+                warnings.simplefilter("ignore")
+                df = circ.run(simulation_time=steps * dt, step_size=dt, outputs=dict(outputs), solver="euler", verbose=False,
+                              clear=True, in_place=False, float_precision="float64", vectorize=vec)
+        except HarnessError:
+            raise
+        except Exception as e:
+            res.violate(exc_bucket("matrix-edges-run-raises", e),
+                        f"pops {[(p[0], p[2]) for p in ps['pops']]} conns {[(c['s'], c['t'], np.shape(c['W']), c.get('d')) for c in ps['conns']]}: {short_exc(e)}")
+            return res
+        scale = 1.0 + float(np.max(np.abs(ref_all)))
+        for i, p in enumerate(rm.state_paths):
+            colv = np.asarray(df[f"v{i}"], dtype=float).ravel()
+            if colv.shape != ref_all[:, i].shape or np.max(np.abs(colv - ref_all[:, i])) > 1e-8 * scale:
+                res.violate("matrix-edges-trajectory", f"{p}: the network built by add_edges_from_matrix deviates from the "
+                                                       f"explicit network (vectorize={vec}); conns "
+                                                       f"{[(c['s'], c['t'], c['W'], c.get('d')) for c in ps['conns']]}")
+                return res
+        return res
+
+    def sample(self, case):
+        ps = case["pspec"]
+        return {"pops": [[p[0], p[1], p[2]] for p in ps["pops"]], "conns": [{k: v for k, v in c.items()} for c in ps["conns"]],
+                "cfg": case["cfg"]}
+
+
+ARMS = [PopArm(), MatrixEdgesArm()]
